@@ -190,6 +190,16 @@ theorem LegSpec.unique {K : Type} [Mul K] [Zero K] {l l' : Legendre} {x : K}
   | qr => exact (b2.mpr (a2.mp rfl)).symm
   | qnr => exact (b3.mpr (a3.mp rfl)).symm
 
+theorem exists_legSpec {K : Type} [MulZeroClass K] (x : K) : ∃ l, LegSpec l x := by
+  classical
+  by_cases h0 : x = 0
+  · refine ⟨.zero, by simp [h0], by simp [h0], ?_⟩
+    simp only [reduceCtorEq, false_iff, not_not]
+    exact ⟨0, by rw [h0, mul_zero]⟩
+  · by_cases hs : IsSquare x
+    · exact ⟨.qr, by simp [h0], by simp [h0, hs], by simp [hs]⟩
+    · exact ⟨.qnr, by simp [h0], by simp [hs], by simp [hs]⟩
+
 section legendre
 variable {F : Type} [Field F] [Fintype F] [DecidableEq F]
 
@@ -226,6 +236,9 @@ theorem legSpec_toInt_quadraticChar {l : Legendre} {a : F} (h : LegSpec l a) :
     rw [quadraticChar_neg_one_iff_not_isSquare.mpr (h3.mp rfl)]; rfl
 
 end legendre
+
+instance fact13 : Fact (Nat.Prime 13) := ⟨by decide⟩
+instance fact17 : Fact (Nat.Prime 17) := ⟨by decide⟩
 
 section zmodleg
 variable (p : ℕ) [Fact p.Prime]
@@ -538,6 +551,37 @@ theorem SqrtSpec.of_none {K : Type} [Mul K] {x : K} (h : ¬ IsSquare x) :
     SqrtSpec (.ok none) x :=
   ⟨none, rfl, ⟨fun _ => h, fun _ => rfl⟩, fun y hy => by cases hy⟩
 
+theorem SqrtSpec.ne_panic {K : Type} [Mul K] {r : Res (Option K)} {x : K} (h : SqrtSpec r x) :
+    r ≠ .panic ∧ r ≠ .diverge := by
+  obtain ⟨o, rfl, _, _⟩ := h
+  exact ⟨fun h => (by cases h), fun h => (by cases h)⟩
+
+theorem SqrtSpec.isSquare_iff {K : Type} [Mul K] {r : Res (Option K)} {x : K} (h : SqrtSpec r x) :
+    IsSquare x ↔ r ≠ .ok none := by
+  obtain ⟨o, rfl, hn, _⟩ := h
+  constructor
+  · intro hs hr
+    exact hn.mp (by cases hr; rfl) hs
+  · intro hr
+    by_contra hs
+    exact hr (by rw [hn.mpr hs])
+
+theorem SqrtSpec.none_iff {K : Type} [Mul K] {r : Res (Option K)} {x : K} (h : SqrtSpec r x) :
+    r = .ok none ↔ ¬ IsSquare x := by
+  rw [h.isSquare_iff]; simp
+
+theorem SqrtSpec.sound {K : Type} [Mul K] {r : Res (Option K)} {x y : K} (h : SqrtSpec r x)
+    (hr : r = .ok (some y)) : y * y = x := by
+  obtain ⟨o, rfl, _, hs⟩ := h
+  exact hs y (by cases hr; rfl)
+
+theorem SqrtSpec.some_of_isSquare {K : Type} [Mul K] {r : Res (Option K)} {x : K}
+    (h : SqrtSpec r x) (hx : IsSquare x) : ∃ y, r = .ok (some y) ∧ y * y = x := by
+  obtain ⟨o, rfl, hn, hs⟩ := h
+  cases o with
+  | none => exact absurd hx (hn.mp rfl)
+  | some y => exact ⟨y, rfl, hs y rfl⟩
+
 section fieldsqrt
 variable {F : Type} [Field F] [Fintype F] [DecidableEq F]
 
@@ -712,7 +756,6 @@ theorem validTS_of_nonresidue (s t : Nat) (h : Fintype.card F - 1 = 2 ^ s * t) (
   have hcard : Fintype.card F - 1 = 2 ^ s * (2 * ((t - 1) / 2) + 1) := by rw [ht']; exact h
   have hg0 : g ≠ 0 := by rintro rfl; exact hg ⟨0, by simp⟩
   refine ⟨hcard, hs, ?_⟩
-  have hv : ValidTS s (1 : F) ((t - 1) / 2) → False ∨ True := fun _ => Or.inr trivial
   have half : Fintype.card F / 2 = 2 ^ (s - 1) * t := by
     obtain ⟨s', rfl⟩ : ∃ s', s = s' + 1 := ⟨s - 1, by omega⟩
     rw [pow_succ] at h
@@ -727,5 +770,1293 @@ theorem validTS_of_nonresidue (s t : Nat) (h : Fintype.card F - 1 = 2 ^ s * t) (
 end validroot
 
 end consts
+
+/-! ## 8. the prime field -/
+
+/-- `fpSqrtD` with the same bodies over an arbitrary field (as `primeD` mirrors `fpD`);
+    `half` is `MODULUS_MINUS_ONE_DIV_TWO` -/
+def primeSqrtD (F : Type) [Field F] [DecidableEq F] (dbg : Bool) (half : Nat)
+    (cmp : F → F → Ordering) (pre : Option (Precomp F)) : SqrtD F :=
+  let sq : F → F := fun a => a * a
+  let leg : F → Res Legendre := fun a => .ok (legendreEuler sq half a)
+  { legendre := leg
+    sqrt := fieldSqrt dbg sq leg pre
+    cmp := cmp }
+
+section primelawful
+variable {F : Type} [Field F] [Fintype F] [DecidableEq F]
+
+theorem primeSqrtD_lawful (dbg : Bool) (cmp : F → F → Ordering) (hF : ringChar F ≠ 2)
+    (pre : Precomp F) (hpre : ValidPre pre) :
+    SqrtLawful (primeSqrtD F dbg (Fintype.card F / 2) cmp (some pre)) where
+  legendre x := ⟨_, rfl, legendreEuler_legSpec _ (fun _ => rfl) hF x⟩
+  sqrt x := fieldSqrt_spec dbg _ (fun _ => rfl) _ pre hpre x
+
+theorem primeSqrtD_none (dbg : Bool) (half : Nat) (cmp : F → F → Ordering) (x : F) :
+    (primeSqrtD F dbg half cmp none).sqrt x = .panic := rfl
+
+end primelawful
+
+/-- the prime field `ZMod p` with the order on canonical representatives -/
+def zmodSqrtD (dbg : Bool) (p : Nat) [Fact p.Prime] (pre : Option (Precomp (ZMod p))) :
+    SqrtD (ZMod p) :=
+  primeSqrtD (ZMod p) dbg (p / 2) (fun a b => compare a.val b.val) pre
+
+section zmodsqrt
+variable (p : ℕ) [Fact p.Prime]
+
+/-- `sqrt_precomputation` yields valid constants for every odd prime that fits its limbs, when
+    `TWO_ADIC_ROOT_OF_UNITY = g^TRACE` for a non-residue `g` -/
+theorem sqrtPrecomputation_valid (hp : p ≠ 2) (n : Nat) (hlt : p < 2 ^ (64 * n)) (g : ZMod p)
+    (hg : ¬ IsSquare g) :
+    ∃ pre, sqrtPrecomputation n p (g ^ (twoAdic p).2) = some pre ∧ ValidPre pre := by
+  have hp1 : 1 < p := (Fact.out : p.Prime).one_lt
+  by_cases h4 : p % 4 = 3
+  · exact ⟨_, sqrtPrecomputation_3mod4 n p _ h4 hlt, by
+      show Fintype.card (ZMod p) % 4 = 3 ∧ _
+      rw [ZMod.card]; exact ⟨h4, rfl⟩⟩
+  · obtain ⟨h1, h2⟩ := twoAdic_spec p hp1
+    refine ⟨_, sqrtPrecomputation_ts n p _ h4 _ _ h1 h2, ?_⟩
+    show ValidTS _ _ _
+    exact validTS_of_nonresidue _ _ (by rw [ZMod.card]; exact h1) h2 g hg
+
+/-- **`fpSqrtD_correct`** over `ZMod p` -/
+theorem zmodSqrtD_lawful (dbg : Bool) (hp : p ≠ 2) (n : Nat) (hlt : p < 2 ^ (64 * n))
+    (g : ZMod p) (hg : ¬ IsSquare g) :
+    SqrtLawful (zmodSqrtD dbg p (sqrtPrecomputation n p (g ^ (twoAdic p).2))) := by
+  obtain ⟨pre, h1, h2⟩ := sqrtPrecomputation_valid p hp n hlt g hg
+  rw [h1]
+  have := primeSqrtD_lawful dbg (fun a b : ZMod p => compare a.val b.val)
+    (zmod_char_ne_two p hp) pre h2
+  rw [ZMod.card] at this
+  exact this
+
+theorem zmodSqrtD_lawful_of_valid (dbg : Bool) (hp : p ≠ 2) (pre : Precomp (ZMod p))
+    (hpre : ValidPre pre) : SqrtLawful (zmodSqrtD dbg p (some pre)) := by
+  have := primeSqrtD_lawful dbg (fun a b : ZMod p => compare a.val b.val)
+    (zmod_char_ne_two p hp) pre hpre
+  rw [ZMod.card] at this
+  exact this
+
+end zmodsqrt
+
+/-! ## 9. transport along an embedding (from `ZMod p` to the executable `Fp p`) -/
+
+def Res.map {α β : Type} (f : α → β) : Res α → Res β
+  | .ok a => .ok (f a)
+  | .panic => .panic
+  | .diverge => .diverge
+
+def precompMap {G H : Type} (f : G → H) : Precomp G → Precomp H
+  | .tonelliShanks s z m => .tonelliShanks s (f z) m
+  | .case3Mod4 e => .case3Mod4 e
+
+section transport
+variable {G H : Type} [Mul G] [Zero G] [One G] [DecidableEq G]
+  [Mul H] [Zero H] [One H] [DecidableEq H]
+
+/-- an injective map preserving `*`, `0`, `1` -/
+structure Emb (f : G → H) : Prop where
+  inj : Function.Injective f
+  mul : ∀ a b, f (a * b) = f a * f b
+  zero : f 0 = 0
+  one : f 1 = 1
+
+variable {f : G → H} (hf : Emb f) {sqG : G → G} {sqH : H → H} (hsq : ∀ a, sqH (f a) = f (sqG a))
+include hf hsq
+
+theorem pow_map (a : G) (e : Nat) : Sqrt.pow sqH (f a) e = f (Sqrt.pow sqG a e) := by
+  unfold Sqrt.pow
+  rw [← hf.one]
+  generalize (1 : G) = r
+  induction bitsBE e generalizing r with
+  | nil => rfl
+  | cons b l ih =>
+    simp only [List.foldl_cons]
+    rw [← ih]
+    congr 1
+    cases b
+    · simp [hsq]
+    · simp [hsq, hf.mul]
+
+theorem iter_map (n : Nat) (z : G) : Sqrt.iter sqH n (f z) = f (Sqrt.iter sqG n z) := by
+  induction n generalizing z with
+  | zero => rfl
+  | succ n ih => rw [Sqrt.iter, Sqrt.iter, hsq, ih]
+
+theorem eq_one_map (c : G) : f c = 1 ↔ c = 1 := by
+  constructor
+  · intro h; exact hf.inj (by rw [h, hf.one])
+  · rintro rfl; exact hf.one
+
+theorem eq_zero_map (c : G) : f c = 0 ↔ c = 0 := by
+  constructor
+  · intro h; exact hf.inj (by rw [h, hf.zero])
+  · rintro rfl; exact hf.zero
+
+theorem findK_map (fuel : Nat) (c : G) (k : Nat) :
+    findK sqH fuel (f c) k = findK sqG fuel c k := by
+  induction fuel generalizing c k with
+  | zero => rfl
+  | succ n ih =>
+    rw [findK, findK, hsq, ih]
+    by_cases h : c = 1
+    · rw [if_pos h, if_pos ((eq_one_map hf hsq c).mpr h)]
+    · rw [if_neg h, if_neg (fun h' => h ((eq_one_map hf hsq c).mp h'))]
+
+theorem tsLoop_map (s fuel : Nat) (z b x : G) (v : Nat) :
+    tsLoop sqH s fuel (f z) (f b) (f x) v = Res.map (Option.map f) (tsLoop sqG s fuel z b x v) := by
+  induction fuel generalizing z b x v with
+  | zero => rfl
+  | succ n ih =>
+    rw [tsLoop, tsLoop, findK_map hf hsq]
+    by_cases h : b = 1
+    · rw [if_pos h, if_pos ((eq_one_map hf hsq b).mpr h)]; rfl
+    · rw [if_neg h, if_neg (fun h' => h ((eq_one_map hf hsq b).mp h'))]
+      cases findK sqG (s + 1) b 0 with
+      | none => rfl
+      | some k =>
+        simp only []
+        split
+        · rfl
+        · split
+          · rfl
+          · rw [iter_map hf hsq, hsq, ← hf.mul, ← hf.mul, ih]
+
+theorem sqrt3Mod4_map (e : Nat) (x : G) :
+    sqrt3Mod4 sqH e (f x) = Option.map f (sqrt3Mod4 sqG e x) := by
+  unfold sqrt3Mod4
+  simp only [pow_map hf hsq, hsq]
+  by_cases h : sqG (Sqrt.pow sqG x e) = x
+  · rw [if_pos h, if_pos (by rw [h])]; rfl
+  · rw [if_neg h, if_neg (fun h' => h (hf.inj h'))]; rfl
+
+theorem legendreEuler_map (e : Nat) (a : G) :
+    legendreEuler sqH e (f a) = legendreEuler sqG e a := by
+  unfold legendreEuler
+  simp only [pow_map hf hsq]
+  by_cases h0 : Sqrt.pow sqG a e = 0
+  · rw [if_pos h0, if_pos ((eq_zero_map hf hsq _).mpr h0)]
+  · rw [if_neg h0, if_neg (fun h' => h0 ((eq_zero_map hf hsq _).mp h'))]
+    by_cases h1 : Sqrt.pow sqG a e = 1
+    · rw [if_pos h1, if_pos ((eq_one_map hf hsq _).mpr h1)]
+    · rw [if_neg h1, if_neg (fun h' => h1 ((eq_one_map hf hsq _).mp h'))]
+
+theorem sqrtTS_map (dbg : Bool) (legG : G → Res Legendre) (legH : H → Res Legendre)
+    (hleg : ∀ a, legH (f a) = legG a) (s : Nat) (z : G) (m : Nat) (x : G) :
+    sqrtTS dbg sqH legH s (f z) m (f x) = Res.map (Option.map f) (sqrtTS dbg sqG legG s z m x) := by
+  unfold sqrtTS
+  by_cases h0 : x = 0
+  · rw [if_pos h0, if_pos ((eq_zero_map hf hsq _).mpr h0)]
+    show _ = Res.ok (some (f 0))
+    rw [hf.zero]
+  · rw [if_neg h0, if_neg (fun h' => h0 ((eq_zero_map hf hsq _).mp h'))]
+    simp only [pow_map hf hsq, ← hf.mul, tsLoop_map hf hsq]
+    cases tsLoop sqG s (s + 1) z (Sqrt.pow sqG x m * x * Sqrt.pow sqG x m) (Sqrt.pow sqG x m * x) s with
+    | panic => rfl
+    | diverge => rfl
+    | ok r =>
+      cases r with
+      | none => rfl
+      | some x' =>
+        simp only [Res.map, Option.map, bind_ok, hsq, hleg]
+        by_cases h1 : sqG x' = x
+        · rw [if_pos h1, if_pos (by rw [h1])]
+        · rw [if_neg h1, if_neg (fun h' => h1 (hf.inj h'))]
+          cases dbg with
+          | false => rfl
+          | true =>
+            simp only [if_true]
+            cases legG x with
+            | panic => rfl
+            | diverge => rfl
+            | ok l =>
+              simp only [bind_ok]
+              split <;> rfl
+
+theorem fieldSqrt_map (dbg : Bool) (legG : G → Res Legendre) (legH : H → Res Legendre)
+    (hleg : ∀ a, legH (f a) = legG a) (pre : Option (Precomp G)) (x : G) :
+    fieldSqrt dbg sqH legH (pre.map (precompMap f)) (f x) =
+      Res.map (Option.map f) (fieldSqrt dbg sqG legG pre x) := by
+  cases pre with
+  | none => rfl
+  | some pre =>
+    cases pre with
+    | tonelliShanks s z m => exact sqrtTS_map hf hsq dbg legG legH hleg s z m x
+    | case3Mod4 e =>
+      show Res.ok (sqrt3Mod4 sqH e (f x)) = _
+      rw [sqrt3Mod4_map hf hsq]; rfl
+
+end transport
+
+section fpbridge
+variable (p : ℕ) [Fact p.Prime]
+
+/-- canonical representative in the executable prime field -/
+def ofZ (z : ZMod p) : Fp p := ⟨z.val⟩
+
+theorem ofZ_emb : Emb (ofZ p) where
+  inj := by
+    intro a b h
+    have hv : a.val = b.val := congrArg Fp.val h
+    haveI : NeZero p := ⟨(Fact.out : p.Prime).ne_zero⟩
+    exact ZMod.val_injective p hv
+  mul := by
+    intro a b
+    show (⟨(a * b).val⟩ : Fp p) = ⟨(a.val * b.val) % p⟩
+    rw [ZMod.val_mul]
+  zero := by
+    show (⟨(0 : ZMod p).val⟩ : Fp p) = ⟨0⟩
+    rw [ZMod.val_zero]
+  one := by
+    show (⟨(1 : ZMod p).val⟩ : Fp p) = ⟨1 % p⟩
+    rw [ZMod.val_one_eq_one_mod]
+
+/-- every reduced element of `Fp p` is a canonical representative -/
+theorem ofZ_surj_reduced (a : Fp p) (h : a.val < p) : ofZ p (a.val : ZMod p) = a := by
+  show (⟨((a.val : ℕ) : ZMod p).val⟩ : Fp p) = a
+  rw [ZMod.val_natCast, Nat.mod_eq_of_lt h]
+
+theorem sqrtPrecomputation_map {G H : Type} (f : G → H) (n m : Nat) (root : G) :
+    sqrtPrecomputation n m (f root) = (sqrtPrecomputation n m root).map (precompMap f) := by
+  unfold sqrtPrecomputation
+  split
+  · cases modulusPlusOneDivFour n m <;> rfl
+  · rfl
+
+/-- the executable `fpSqrtD` on canonical representatives is the image of `zmodSqrtD` -/
+theorem fpSqrtD_sqrt_ofZ (dbg : Bool) (pre : Option (Precomp (ZMod p))) (x : ZMod p) :
+    (fpSqrtD dbg p (pre.map (precompMap (ofZ p)))).sqrt (ofZ p x) =
+      Res.map (Option.map (ofZ p)) ((zmodSqrtD dbg p pre).sqrt x) := by
+  have hf := ofZ_emb p
+  have hsq : ∀ a : ZMod p, (fun a : Fp p => a * a) (ofZ p a) = ofZ p ((fun a => a * a) a) :=
+    fun a => (hf.mul a a).symm
+  exact fieldSqrt_map (sqG := fun a : ZMod p => a * a) (sqH := fun a : Fp p => a * a) hf hsq dbg
+    (fun a => .ok (legendreEuler (fun a : ZMod p => a * a) (p / 2) a))
+    (fun a => .ok (legendreEuler (fun a : Fp p => a * a) (p / 2) a))
+    (fun a => by
+      show Res.ok _ = Res.ok _
+      rw [legendreEuler_map (sqG := fun a : ZMod p => a * a) (sqH := fun a : Fp p => a * a) hf hsq])
+    pre x
+
+theorem fpSqrtD_legendre_ofZ (dbg : Bool) (pre : Option (Precomp (Fp p))) (x : ZMod p) :
+    (fpSqrtD dbg p pre).legendre (ofZ p x) =
+      .ok (legendreEuler (fun a : ZMod p => a * a) (p / 2) x) := by
+  have hf := ofZ_emb p
+  have hsq : ∀ a : ZMod p, (fun a : Fp p => a * a) (ofZ p a) = ofZ p ((fun a => a * a) a) :=
+    fun a => (hf.mul a a).symm
+  show Res.ok _ = Res.ok _
+  rw [legendreEuler_map (sqG := fun a : ZMod p => a * a) (sqH := fun a : Fp p => a * a) hf hsq]
+
+theorem fpSqrtD_cmp_ofZ (dbg : Bool) (pre : Option (Precomp (Fp p))) (a b : ZMod p) :
+    (fpSqrtD dbg p pre).cmp (ofZ p a) (ofZ p b) = compare a.val b.val := rfl
+
+end fpbridge
+
+/-! ## 10. the quadratic extension: `legendre` through the norm, `sqrt` by the complex method -/
+
+@[simp] theorem ofOutcome_ok {α : Type} (a : α) : Res.ofOutcome (Outcome.ok a) = Res.ok a := rfl
+@[simp] theorem expect_some {α : Type} (a : α) : Res.expect (some a) = Res.ok a := rfl
+@[simp] theorem expect_none {α : Type} : Res.expect (none : Option α) = Res.panic := rfl
+
+theorem isQr_iff (l : Legendre) : l.isQr = true ↔ l = .qr := by cases l <;> decide
+theorem isQnr_iff (l : Legendre) : l.isQnr = true ↔ l = .qnr := by cases l <;> decide
+
+section quadsqrt
+variable {P F : Type} [Field F] [Fintype F] [DecidableEq F]
+variable {cfg : QuadCfg F} {B : FieldD P F}
+
+theorem nonresidue_not_isSquare (hnr : ∀ x : F, x * x ≠ cfg.nonresidue) :
+    ¬ IsSquare cfg.nonresidue := fun ⟨r, hr⟩ => hnr r hr.symm
+
+theorem fdiv_eq (hB : BaseLawful B) (a b : F) (hb : b ≠ 0) : fdiv B a b = .ok (a * b⁻¹) := by
+  unfold fdiv
+  rw [hB.inverse, if_neg hb]
+  rfl
+
+/-- the two candidates `δ, δ - α` of the complex method: their product is `β·(c1/2)²`, a
+    non-residue, so exactly one of them is a square — the one the algorithm selects -/
+theorem delta_props (β c0 c1 α : F) (hβ : ¬ IsSquare β) (hc1 : c1 ≠ 0)
+    (hα : α * α = c0 ^ 2 - β * c1 ^ 2) (l : Legendre) (hl : LegSpec l ((α + c0) * 2⁻¹))
+    (δ : F) (hδ : δ = if l.isQnr = true then (α + c0) * 2⁻¹ - α else (α + c0) * 2⁻¹) :
+    δ ≠ 0 ∧ IsSquare δ ∧ δ * δ - c0 * δ + β * c1 ^ 2 * (2⁻¹) ^ 2 = 0 := by
+  have hF := char_ne_two_of_nonsquare hβ
+  have h2 : (2 : F) ≠ 0 := Ring.two_ne_zero hF
+  have hβ0 : β ≠ 0 := by rintro rfl; exact hβ ⟨0, by simp⟩
+  have hprod : ((α + c0) * 2⁻¹) * ((α + c0) * 2⁻¹ - α) = β * ((c1 * 2⁻¹) * (c1 * 2⁻¹)) := by
+    field_simp
+    linear_combination (-1 : F) * hα
+  have hns : ¬ IsSquare (β * ((c1 * 2⁻¹) * (c1 * 2⁻¹))) :=
+    not_isSquare_mul hF hβ ⟨c1 * 2⁻¹, rfl⟩
+      (mul_ne_zero (mul_ne_zero hc1 (inv_ne_zero h2)) (mul_ne_zero hc1 (inv_ne_zero h2)))
+  have hne : β * ((c1 * 2⁻¹) * (c1 * 2⁻¹)) ≠ 0 := by
+    intro h; exact hns ⟨0, by rw [h]; simp⟩
+  have e1 : ((α + c0) * 2⁻¹) * ((α + c0) * 2⁻¹) - c0 * ((α + c0) * 2⁻¹) + β * c1 ^ 2 * (2⁻¹) ^ 2 = 0 := by
+    field_simp
+    linear_combination hα
+  have e2 : ((α + c0) * 2⁻¹ - α) * ((α + c0) * 2⁻¹ - α) - c0 * ((α + c0) * 2⁻¹ - α)
+      + β * c1 ^ 2 * (2⁻¹) ^ 2 = 0 := by
+    field_simp
+    linear_combination hα
+  by_cases hq : l = .qnr
+  · have hq' : l.isQnr = true := (isQnr_iff l).mpr hq
+    rw [if_pos hq'] at hδ
+    subst hδ
+    refine ⟨?_, ?_, e2⟩
+    · intro h; rw [h, mul_zero] at hprod; exact hne hprod.symm
+    · by_contra hn
+      have h1 : ¬ IsSquare ((α + c0) * 2⁻¹) := hl.2.2.mp hq
+      exact hns (hprod ▸ isSquare_mul_of_not hF h1 hn)
+  · have hq' : ¬ l.isQnr = true := fun h => hq ((isQnr_iff l).mp h)
+    rw [if_neg hq'] at hδ
+    subst hδ
+    refine ⟨?_, ?_, e1⟩
+    · intro h; rw [h, zero_mul] at hprod; exact hne hprod.symm
+    · by_contra hn
+      exact hq (hl.2.2.mpr hn)
+
+variable (hB : BaseLawful B) (hc : QuadLawful cfg) (hnr : ∀ x : F, x * x ≠ cfg.nonresidue)
+include hB hc hnr
+
+/-- `c1 = 0`: the first `sqrt` never fails on a residue, and on a non-residue `c0`, `c0/β` is a
+    residue; the result is always a root -/
+theorem quadSqrt_c1_zero {SB : SqrtD F} (hS : SqrtLawful SB) (dbg : Bool) (PD : PrimeD P)
+    (a : Quad F) (h1 : a.c1 = 0) :
+    ∃ y, quadSqrt dbg cfg B SB PD a = .ok (some y) ∧ Quad.mul cfg B y y = a := by
+  have hβ := nonresidue_not_isSquare hnr
+  have hF := char_ne_two_of_nonsquare hβ
+  have hβ0 : cfg.nonresidue ≠ 0 := by rintro h; exact hβ ⟨0, by rw [h]; simp⟩
+  obtain ⟨l, hl, hls⟩ := hS.legendre a.c0
+  unfold quadSqrt
+  rw [if_pos h1, hl, bind_ok]
+  by_cases hq : l = .qr
+  · obtain ⟨h0, hsq⟩ := hls.2.1.mp hq
+    obtain ⟨o, ho, hn, hsome⟩ := hS.sqrt a.c0
+    rw [if_pos ((isQr_iff l).mpr hq), ho, bind_ok]
+    cases o with
+    | none => exact absurd hsq (hn.mp rfl)
+    | some r =>
+      refine ⟨⟨r, 0⟩, rfl, ?_⟩
+      rw [Quad.mul_eq hB hc]
+      apply Quad.ext' <;> simp [hsome r rfl, h1]
+  · rw [if_neg (fun h => hq ((isQr_iff l).mp h)), fdiv_eq hB _ _ hβ0, bind_ok]
+    have hd : IsSquare (a.c0 * cfg.nonresidue⁻¹) := by
+      by_cases h0 : a.c0 = 0
+      · exact ⟨0, by rw [h0]; simp⟩
+      · have hns : ¬ IsSquare a.c0 := fun h => hq (hls.2.1.mpr ⟨h0, h⟩)
+        have hβi : ¬ IsSquare cfg.nonresidue⁻¹ := by
+          rintro ⟨r, hr⟩
+          exact hβ ⟨r⁻¹, by rw [← mul_inv, ← hr, inv_inv]⟩
+        exact isSquare_mul_of_not hF hns hβi
+    obtain ⟨o, ho, hn, hsome⟩ := hS.sqrt (a.c0 * cfg.nonresidue⁻¹)
+    rw [ho, bind_ok]
+    cases o with
+    | none => exact absurd hd (hn.mp rfl)
+    | some r =>
+      refine ⟨⟨0, r⟩, rfl, ?_⟩
+      rw [Quad.mul_eq hB hc]
+      apply Quad.ext'
+      · simp only [mul_zero, zero_add]
+        rw [hsome r rfl]
+        field_simp
+      · simp [h1]
+
+/-- `c1 ≠ 0` and the norm is a square: both `expect`s are unreachable and the candidate is a root -/
+theorem quadSqrt_c1_ne_some {SB : SqrtD F} (hS : SqrtLawful SB) (dbg : Bool) (PD : PrimeD P)
+    (hti : twoInv B PD = .ok (2⁻¹ : F)) (a : Quad F) (h1 : a.c1 ≠ 0)
+    (hsqn : IsSquare (Quad.norm cfg B a)) :
+    ∃ y, quadSqrt dbg cfg B SB PD a = .ok (some y) ∧ Quad.mul cfg B y y = a := by
+  have hβ := nonresidue_not_isSquare hnr
+  have hF := char_ne_two_of_nonsquare hβ
+  have h2 : (2 : F) ≠ 0 := Ring.two_ne_zero hF
+  obtain ⟨o, ho, hn, hsome⟩ := hS.sqrt (Quad.norm cfg B a)
+  unfold quadSqrt
+  rw [if_neg h1]
+  simp only [hti, bind_ok, ho]
+  cases o with
+  | none => exact absurd hsqn (hn.mp rfl)
+  | some α =>
+    dsimp only
+    have hα : α * α = a.c0 ^ 2 - cfg.nonresidue * a.c1 ^ 2 := by
+      rw [hsome α rfl, Quad.norm_eq hB hc]
+    obtain ⟨l, hl, hls⟩ := hS.legendre ((α + a.c0) * 2⁻¹)
+    rw [hl, bind_ok]
+    obtain ⟨hδ0, hδs, hδe⟩ := delta_props cfg.nonresidue a.c0 a.c1 α hβ h1 hα l hls _ rfl
+    generalize (if l.isQnr = true then (α + a.c0) * 2⁻¹ - α else (α + a.c0) * 2⁻¹) = δ at *
+    obtain ⟨o', ho', hn', hsome'⟩ := hS.sqrt δ
+    rw [ho', bind_ok]
+    cases o' with
+    | none => exact absurd hδs (hn'.mp rfl)
+    | some c =>
+      have hcc : c * c = δ := hsome' c rfl
+      have hc0 : c ≠ 0 := by rintro rfl; exact hδ0 (by rw [← hcc]; simp)
+      simp only [expect_some, bind_ok, hB.inverse, if_neg hc0, ofOutcome_ok]
+      have hcand : Quad.square cfg B ⟨c, a.c1 * 2⁻¹ * c⁻¹⟩ = a := by
+        rw [Quad.square_eq hB hc, Quad.mul_eq hB hc]
+        apply Quad.ext'
+        · simp only []
+          rw [← hcc] at hδe
+          field_simp
+          field_simp at hδe
+          linear_combination hδe
+        · simp only []
+          field_simp
+          ring
+      rw [if_pos hcand]
+      exact ⟨_, rfl, by rw [← Quad.square_eq hB hc]; exact hcand⟩
+
+/-- `c1 ≠ 0` and the norm is not a square: `None` -/
+theorem quadSqrt_c1_ne_none {SB : SqrtD F} (hS : SqrtLawful SB) (dbg : Bool) (PD : PrimeD P)
+    (hti : twoInv B PD = .ok (2⁻¹ : F)) (a : Quad F) (h1 : a.c1 ≠ 0)
+    (hsqn : ¬ IsSquare (Quad.norm cfg B a)) :
+    quadSqrt dbg cfg B SB PD a = .ok none := by
+  obtain ⟨o, ho, hn, hsome⟩ := hS.sqrt (Quad.norm cfg B a)
+  unfold quadSqrt
+  rw [if_neg h1]
+  simp only [hti, bind_ok, ho]
+  cases o with
+  | none => rfl
+  | some α => exact absurd ⟨α, (hsome α rfl).symm⟩ hsqn
+
+/-- squares of the extension have square norm -/
+theorem isSquare_norm_of_isSquare (a : Quad F)
+    (h : ∃ b, a = Quad.mul cfg B b b) : IsSquare (Quad.norm cfg B a) := by
+  obtain ⟨b, rfl⟩ := h
+  exact ⟨Quad.norm cfg B b, Quad.norm_mul hB hc b b⟩
+
+/-- in `F_{q²}`: `a` is a square iff its norm is a square in `F_q` (pure field theory: the algebra of
+    the complex method, no dictionary involved) -/
+theorem quad_isSquare_iff (a : Quad F) :
+    (∃ b, a = Quad.mul cfg B b b) ↔ IsSquare (Quad.norm cfg B a) := by
+  have hβ := nonresidue_not_isSquare hnr
+  have hF := char_ne_two_of_nonsquare hβ
+  have h2 : (2 : F) ≠ 0 := Ring.two_ne_zero hF
+  have hβ0 : cfg.nonresidue ≠ 0 := by rintro h; exact hβ ⟨0, by rw [h]; simp⟩
+  constructor
+  · exact isSquare_norm_of_isSquare hB hc hnr a
+  · intro hN
+    by_cases h1 : a.c1 = 0
+    · by_cases hs : IsSquare a.c0
+      · obtain ⟨r, hr⟩ := hs
+        refine ⟨⟨r, 0⟩, ?_⟩
+        rw [Quad.mul_eq hB hc]
+        apply Quad.ext' <;> simp [hr, h1]
+      · have hβi : ¬ IsSquare cfg.nonresidue⁻¹ := by
+          rintro ⟨r, hr⟩
+          exact hβ ⟨r⁻¹, by rw [← mul_inv, ← hr, inv_inv]⟩
+        obtain ⟨r, hr⟩ := isSquare_mul_of_not hF hs hβi
+        refine ⟨⟨0, r⟩, ?_⟩
+        rw [Quad.mul_eq hB hc]
+        apply Quad.ext'
+        · simp only [mul_zero, zero_add]
+          rw [← hr]
+          field_simp
+        · simp [h1]
+    · obtain ⟨α, hα'⟩ := hN
+      have hα : α * α = a.c0 ^ 2 - cfg.nonresidue * a.c1 ^ 2 := by
+        rw [← hα', Quad.norm_eq hB hc]
+      obtain ⟨l, hls⟩ := exists_legSpec ((α + a.c0) * 2⁻¹)
+      obtain ⟨hδ0, ⟨c, hc'⟩, hδe⟩ := delta_props cfg.nonresidue a.c0 a.c1 α hβ h1 hα l hls _ rfl
+      generalize (if l.isQnr = true then (α + a.c0) * 2⁻¹ - α else (α + a.c0) * 2⁻¹) = δ at *
+      have hc0 : c ≠ 0 := by rintro rfl; exact hδ0 (by rw [hc']; simp)
+      refine ⟨⟨c, a.c1 * 2⁻¹ * c⁻¹⟩, ?_⟩
+      rw [Quad.mul_eq hB hc]
+      apply Quad.ext'
+      · simp only []
+        rw [hc'] at hδe
+        field_simp
+        field_simp at hδe
+        linear_combination (-1 : F) * hδe
+      · simp only []
+        field_simp
+        ring
+
+end quadsqrt
+
+section quadlawful
+variable {P F : Type} [Field F] [Fintype F] [DecidableEq F]
+variable {cfg : QuadCfg F} {B : FieldD P F}
+variable (hB : BaseLawful B) (hc : QuadLawful cfg) (hnr : ∀ x : F, x * x ≠ cfg.nonresidue)
+include hB hc hnr
+
+/-- `quadLegendre` is (definitionally) the base Legendre symbol of the norm -/
+theorem quadLegendre_eq (SB : SqrtD F) (a : Quad F) :
+    quadLegendre cfg B SB a = SB.legendre (Quad.norm cfg B a) := rfl
+
+/-- … and this is the Legendre symbol of `a` in the quadratic extension field -/
+theorem quadLegendre_legSpec {SB : SqrtD F} (hS : SqrtLawful SB) (a : Quad F) :
+    letI := Quad.field cfg B hB hc hnr
+    ∃ l, quadLegendre cfg B SB a = .ok l ∧ LegSpec l a := by
+  letI := Quad.field cfg B hB hc hnr
+  obtain ⟨l, hl, h1, h2, h3⟩ := hS.legendre (Quad.norm cfg B a)
+  have hz : Quad.norm cfg B a = 0 ↔ a = 0 := by
+    constructor
+    · intro h
+      by_contra ha
+      exact Quad.norm_ne_zero hB hc hnr a ha h
+    · rintro rfl; exact Quad.norm_zero hB hc
+  have hsq : IsSquare a ↔ IsSquare (Quad.norm cfg B a) := quad_isSquare_iff hB hc hnr a
+  refine ⟨l, hl, ?_, ?_, ?_⟩
+  · rw [h1, hz]
+  · rw [h2, hsq, ne_eq, ne_eq, hz]
+  · rw [h3, hsq]
+
+/-- Euler's criterion through the norm: `a^((q²-1)/2) = norm(a)^((q-1)/2)` (embedded) -/
+theorem quad_euler_norm (a : Quad F) :
+    letI := Quad.field cfg B hB hc hnr
+    a ^ (Fintype.card (Quad F) / 2) = Quad.ofBase hB hc (Quad.norm cfg B a ^ (Fintype.card F / 2)) := by
+  letI := Quad.field cfg B hB hc hnr
+  have hF := char_ne_two_of_nonsquare (nonresidue_not_isSquare hnr)
+  have hK : ringChar (Quad F) ≠ 2 := by
+    apply char_ne_two_of_odd
+    rw [Quad.card, Nat.pow_mod, FiniteField.odd_card_of_char_ne_two hF]
+  obtain ⟨l, h1, h2, h3⟩ := exists_legSpec (Quad.norm cfg B a)
+  have hz : Quad.norm cfg B a = 0 ↔ a = 0 := by
+    constructor
+    · intro h
+      by_contra ha
+      exact Quad.norm_ne_zero hB hc hnr a ha h
+    · rintro rfl; exact Quad.norm_zero hB hc
+  have hsq : IsSquare a ↔ IsSquare (Quad.norm cfg B a) := quad_isSquare_iff hB hc hnr a
+  have hla : LegSpec l a := ⟨by rw [h1, hz], by rw [h2, hsq, ne_eq, ne_eq, hz], by rw [h3, hsq]⟩
+  have e1 := legSpec_toInt_quadraticChar hla
+  have e2 := legSpec_toInt_quadraticChar (F := F) ⟨h1, h2, h3⟩
+  rw [← quadraticChar_eq_pow_of_char_ne_two' hK a, ← quadraticChar_eq_pow_of_char_ne_two' hF,
+    ← e1, ← e2, map_intCast]
+
+theorem quadSqrt_spec {SB : SqrtD F} (hS : SqrtLawful SB) (dbg : Bool) (PD : PrimeD P)
+    (hti : twoInv B PD = .ok (2⁻¹ : F)) (a : Quad F) :
+    letI := Quad.field cfg B hB hc hnr
+    SqrtSpec (quadSqrt dbg cfg B SB PD a) a := by
+  letI := Quad.field cfg B hB hc hnr
+  by_cases h1 : a.c1 = 0
+  · obtain ⟨y, hy, hyy⟩ := quadSqrt_c1_zero hB hc hnr hS dbg PD a h1
+    rw [hy]; exact SqrtSpec.of_some hyy
+  · by_cases hN : IsSquare (Quad.norm cfg B a)
+    · obtain ⟨y, hy, hyy⟩ := quadSqrt_c1_ne_some hB hc hnr hS dbg PD hti a h1 hN
+      rw [hy]; exact SqrtSpec.of_some hyy
+    · rw [quadSqrt_c1_ne_none hB hc hnr hS dbg PD hti a h1 hN]
+      apply SqrtSpec.of_none
+      intro hs
+      exact hN ((quad_isSquare_iff hB hc hnr a).mp hs)
+
+/-- the quadratic layer of a tower is again a lawful square-root dictionary -/
+theorem quadSqrtD_lawful {SB : SqrtD F} (hS : SqrtLawful SB) (dbg : Bool) (PD : PrimeD P)
+    (hti : twoInv B PD = .ok (2⁻¹ : F)) :
+    letI := Quad.field cfg B hB hc hnr
+    SqrtLawful (quadSqrtD dbg cfg B SB PD) := by
+  letI := Quad.field cfg B hB hc hnr
+  exact ⟨fun a => quadLegendre_legSpec hB hc hnr hS a,
+    fun a => quadSqrt_spec hB hc hnr hS dbg PD hti a⟩
+
+/-- soundness alone needs neither the `legendre` nor completeness of the base `sqrt` -/
+theorem quadSqrt_sound {SB : SqrtD F} (hSs : ∀ x y, SB.sqrt x = .ok (some y) → y * y = x)
+    (dbg : Bool) (PD : PrimeD P) (a y : Quad F)
+    (h : quadSqrt dbg cfg B SB PD a = .ok (some y)) : Quad.square cfg B y = a := by
+  have hβ0 : cfg.nonresidue ≠ 0 := by
+    intro h0; exact hnr 0 (by rw [h0]; ring)
+  unfold quadSqrt at h
+  split at h
+  · rename_i h1
+    cases hl : SB.legendre a.c0 with
+    | panic => rw [hl] at h; cases h
+    | diverge => rw [hl] at h; cases h
+    | ok l =>
+      rw [hl, bind_ok] at h
+      split at h
+      · cases hs : SB.sqrt a.c0 with
+        | panic => rw [hs] at h; cases h
+        | diverge => rw [hs] at h; cases h
+        | ok o =>
+          rw [hs, bind_ok] at h
+          cases o with
+          | none => cases h
+          | some r =>
+            cases h
+            rw [Quad.square_eq hB hc, Quad.mul_eq hB hc]
+            apply Quad.ext' <;> simp [hSs _ _ hs, h1]
+      · rw [fdiv_eq hB _ _ hβ0, bind_ok] at h
+        cases hs : SB.sqrt (a.c0 * cfg.nonresidue⁻¹) with
+        | panic => rw [hs] at h; cases h
+        | diverge => rw [hs] at h; cases h
+        | ok o =>
+          rw [hs, bind_ok] at h
+          cases o with
+          | none => cases h
+          | some r =>
+            cases h
+            rw [Quad.square_eq hB hc, Quad.mul_eq hB hc]
+            apply Quad.ext'
+            · simp only [mul_zero, zero_add]
+              rw [hSs _ _ hs]
+              field_simp
+            · simp [h1]
+  · -- the candidate is checked by squaring
+    simp only [] at h
+    cases ht : twoInv B PD with
+    | panic => rw [ht] at h; cases h
+    | diverge => rw [ht] at h; cases h
+    | ok ti =>
+      rw [ht, bind_ok] at h
+      cases hs : SB.sqrt (Quad.norm cfg B a) with
+      | panic => rw [hs] at h; cases h
+      | diverge => rw [hs] at h; cases h
+      | ok o =>
+        rw [hs, bind_ok] at h
+        cases o with
+        | none => cases h
+        | some α =>
+          dsimp only at h
+          cases hl : SB.legendre ((α + a.c0) * ti) with
+          | panic => rw [hl] at h; cases h
+          | diverge => rw [hl] at h; cases h
+          | ok l =>
+            rw [hl, bind_ok] at h
+            cases hs2 : SB.sqrt (if l.isQnr = true then (α + a.c0) * ti - α else (α + a.c0) * ti) with
+            | panic => rw [hs2] at h; cases h
+            | diverge => rw [hs2] at h; cases h
+            | ok o2 =>
+              rw [hs2, bind_ok] at h
+              cases o2 with
+              | none => cases h
+              | some c =>
+                rw [expect_some, bind_ok, hB.inverse, ofOutcome_ok, bind_ok] at h
+                split at h
+                · cases h
+                · rw [expect_some, bind_ok] at h
+                  split at h
+                  · rename_i hcand
+                    cases h
+                    exact hcand
+                  · split at h
+                    · cases hql : quadLegendre cfg B SB a with
+                      | panic => rw [hql] at h; cases h
+                      | diverge => rw [hql] at h; cases h
+                      | ok l' =>
+                        rw [hql, bind_ok] at h
+                        split at h <;> cases h
+                    · cases h
+
+theorem quadSqrt_zero {SB : SqrtD F} (hS : SqrtLawful SB) (dbg : Bool) (PD : PrimeD P) :
+    quadSqrt dbg cfg B SB PD (0 : Quad F) = .ok (some 0) := by
+  obtain ⟨y, hy, hyy⟩ := quadSqrt_c1_zero hB hc hnr hS dbg PD (0 : Quad F) rfl
+  rw [hy]
+  have hy0 : y = 0 := by
+    letI := Quad.field cfg B hB hc hnr
+    have : y * y = 0 := hyy
+    exact mul_self_eq_zero.mp this
+  rw [hy0]
+
+end quadlawful
+
+/-! ## 11. the cubic extension -/
+
+/-- `(q³ - 1)/2 = (1 + q + q²)·((q - 1)/2)` -/
+theorem card_cube_half (q : Nat) (hq : q % 2 = 1) : q ^ 3 / 2 = (q + (q ^ 2 + 1)) * (q / 2) := by
+  obtain ⟨k, rfl⟩ : ∃ k, q = 2 * k + 1 := ⟨q / 2, by omega⟩
+  have h1 : (2 * k + 1) / 2 = k := by omega
+  have h2 : (2 * k + 1) ^ 3 = 2 * ((2 * k + 1 + ((2 * k + 1) ^ 2 + 1)) * k) + 1 := by ring
+  rw [h1, h2]
+  omega
+
+section cubic
+variable {P F : Type} [Field F] [Fintype F] [DecidableEq F]
+variable {cfg : CubicCfg F} {B : FieldD P F}
+variable (hB : BaseLawful B) (hc : CubicLawful cfg) (hnc : ∀ x : F, x ^ 3 ≠ cfg.nonresidue)
+include hc hnc
+
+theorem cubic_char_ne_two (hF : ringChar F ≠ 2) :
+    letI := Cubic.field cfg hc hnc
+    ringChar (Cubic F) ≠ 2 := by
+  letI := Cubic.field cfg hc hnc
+  apply char_ne_two_of_odd
+  rw [Cubic.card]
+  have := FiniteField.odd_card_of_char_ne_two hF
+  rw [Nat.pow_mod, this]
+
+/-- Euler's criterion descends along the norm: if `(n, 0, 0) = a^q · (a^(q²) · a)` then `a` and `n`
+    have the same Legendre symbol -/
+theorem cubic_legSpec_of_norm (hF : ringChar F ≠ 2) (a : Cubic F) (n : F)
+    (hn : letI := Cubic.commRing cfg hc
+      (⟨n, 0, 0⟩ : Cubic F) = a ^ Fintype.card F * (a ^ Fintype.card F ^ 2 * a))
+    (l : Legendre) (hl : LegSpec l n) :
+    letI := Cubic.field cfg hc hnc
+    LegSpec l a := by
+  letI := Cubic.field cfg hc hnc
+  have hK := cubic_char_ne_two hc hnc hF
+  have hodd := FiniteField.odd_card_of_char_ne_two hF
+  have hq : 0 < Fintype.card F := Fintype.card_pos
+  have hn' : Cubic.ofBase hc n = a ^ (Fintype.card F + (Fintype.card F ^ 2 + 1)) := by
+    rw [pow_add, pow_add, pow_one]; exact hn
+  have hz : n = 0 ↔ a = 0 := by
+    constructor
+    · rintro rfl
+      rw [map_zero] at hn'
+      exact pow_eq_zero_iff (by omega) |>.mp hn'.symm
+    · rintro rfl
+      rw [zero_pow (by omega)] at hn'
+      exact (map_eq_zero (Cubic.ofBase hc)).mp hn'
+  have hsq : a ≠ 0 → (IsSquare a ↔ IsSquare n) := by
+    intro ha
+    have hn0 : n ≠ 0 := fun h => ha (hz.mp h)
+    rw [FiniteField.isSquare_iff hK ha, FiniteField.isSquare_iff hF hn0, Cubic.card,
+      card_cube_half _ hodd, pow_mul, ← hn', ← map_pow]
+    constructor
+    · intro h
+      exact Cubic.ofBase_injective hc (by rw [h, map_one])
+    · intro h
+      rw [h, map_one]
+  obtain ⟨h1, h2, h3⟩ := hl
+  refine ⟨by rw [h1, hz], ?_, ?_⟩
+  · rw [h2, ne_eq, ne_eq, hz]
+    constructor
+    · rintro ⟨h0, hs⟩; exact ⟨h0, (hsq h0).mpr hs⟩
+    · rintro ⟨h0, hs⟩; exact ⟨h0, (hsq h0).mp hs⟩
+  · rw [h3]
+    by_cases ha : a = 0
+    · subst ha
+      have : n = 0 := hz.mpr rfl
+      subst this
+      simp
+    · rw [hsq ha]
+
+/-- `cubicLegendre` is Euler's criterion in `F_{q³}`, given that `frobenius_map(d)` and
+    `frobenius_map(2d)` are the `q`- and `q²`-power maps (valid Frobenius tables); the `assert!` of the
+    norm is then unreachable -/
+theorem cubicLegendre_legSpec {SB : SqrtD F} (hS : SqrtLawful SB) (hF : ringChar F ≠ 2)
+    (a : Cubic F)
+    (hf1 : letI := Cubic.commRing cfg hc
+      Cubic.frob cfg B a B.extDeg = .ok (a ^ Fintype.card F))
+    (hf2 : letI := Cubic.commRing cfg hc
+      Cubic.frob cfg B a (2 * B.extDeg) = .ok (a ^ Fintype.card F ^ 2)) :
+    letI := Cubic.field cfg hc hnc
+    ∃ l, cubicLegendre cfg B SB a = .ok l ∧ LegSpec l a := by
+  letI := Cubic.field cfg hc hnc
+  obtain ⟨n, hn1, hn2⟩ := Cubic.norm_spec hc hnc a hf1 hf2
+  obtain ⟨l, hl, hls⟩ := hS.legendre n
+  refine ⟨l, ?_, cubic_legSpec_of_norm hc hnc hF a n hn2 l hls⟩
+  unfold cubicLegendre
+  rw [hn1, ofOutcome_ok, bind_ok, hl]
+
+include hB
+
+/-- `cubicSqrt` = Tonelli–Shanks / 3-mod-4 in `F_{q³}` with the configured constants -/
+theorem cubicSqrt_spec (dbg : Bool) (SB : SqrtD F) (pre : Precomp (Cubic F))
+    (hpre : letI := Cubic.field cfg hc hnc
+      ValidPre pre) (a : Cubic F) :
+    letI := Cubic.field cfg hc hnc
+    SqrtSpec (cubicSqrt dbg cfg B SB (some pre) a) a := by
+  letI := Cubic.field cfg hc hnc
+  exact fieldSqrt_spec dbg (Cubic.square cfg B) (fun x => Cubic.square_eq hB hc x)
+    (cubicLegendre cfg B SB) pre hpre a
+
+theorem cubicSqrt_none (dbg : Bool) (SB : SqrtD F) (a : Cubic F) :
+    cubicSqrt dbg cfg B SB none a = .panic := rfl
+
+theorem cubicSqrt_sound (dbg : Bool) (SB : SqrtD F) (s : Nat) (z : Cubic F) (m : Nat)
+    (a y : Cubic F) (h : cubicSqrt dbg cfg B SB (fp3Precomp s z m) a = .ok (some y)) :
+    Cubic.mul cfg y y = a := by
+  letI := Cubic.field cfg hc hnc
+  exact sqrtTS_sound dbg (Cubic.square cfg B) (fun x => Cubic.square_eq hB hc x)
+    (cubicLegendre cfg B SB) s z m a y h
+
+/-- the cubic layer of a tower is a lawful square-root dictionary -/
+theorem cubicSqrtD_lawful {SB : SqrtD F} (hS : SqrtLawful SB) (hF : ringChar F ≠ 2) (dbg : Bool)
+    (pre : Precomp (Cubic F))
+    (hpre : letI := Cubic.field cfg hc hnc
+      ValidPre pre)
+    (hf1 : letI := Cubic.commRing cfg hc
+      ∀ a : Cubic F, Cubic.frob cfg B a B.extDeg = .ok (a ^ Fintype.card F))
+    (hf2 : letI := Cubic.commRing cfg hc
+      ∀ a : Cubic F, Cubic.frob cfg B a (2 * B.extDeg) = .ok (a ^ Fintype.card F ^ 2)) :
+    letI := Cubic.field cfg hc hnc
+    SqrtLawful (cubicSqrtD dbg cfg B SB (some pre)) := by
+  letI := Cubic.field cfg hc hnc
+  exact ⟨fun a => cubicLegendre_legSpec hc hnc hS hF a (hf1 a) (hf2 a),
+    fun a => cubicSqrt_spec hB hc hnc dbg SB pre hpre a⟩
+
+end cubic
+
+/-! ## 12. coordinate recovery -/
+
+/-- `cmp` is oriented: `a > b ↔ b < a` (true of every lawful `Ord`) -/
+def CmpOriented {K : Type} (S : SqrtD K) : Prop := ∀ a b, S.cmp a b = .gt ↔ S.cmp b a = .lt
+
+theorem CmpOriented.eq_iff {K : Type} {S : SqrtD K} (h : CmpOriented S) (a b : K) :
+    S.cmp a b = .eq ↔ S.cmp b a = .eq := by
+  have h1 := h a b
+  have h2 := h b a
+  cases hab : S.cmp a b <;> cases hba : S.cmp b a <;> simp_all
+
+/-- `Ord for QuadExtField` (`c1` first, then `c0`) is oriented when the base order is -/
+theorem quadCmp_oriented {K : Type} {SB : SqrtD K} (h : CmpOriented SB) (a b : Quad K) :
+    quadCmp SB a b = .gt ↔ quadCmp SB b a = .lt := by
+  unfold quadCmp
+  have h1 := h a.c1 b.c1
+  have h2 := h b.c1 a.c1
+  have h3 := h a.c0 b.c0
+  cases h11 : SB.cmp a.c1 b.c1 <;> cases h12 : SB.cmp b.c1 a.c1 <;> simp_all
+
+/-- `Ord for CubicExtField` (`c2`, `c1`, `c0`) likewise -/
+theorem cubicCmp_oriented {K : Type} {SB : SqrtD K} (h : CmpOriented SB) (a b : Cubic K) :
+    cubicCmp SB a b = .gt ↔ cubicCmp SB b a = .lt := by
+  unfold cubicCmp
+  have h1 := h a.c2 b.c2
+  have h2 := h b.c2 a.c2
+  have h3 := h a.c1 b.c1
+  have h4 := h b.c1 a.c1
+  have h5 := h a.c0 b.c0
+  cases h11 : SB.cmp a.c2 b.c2 <;> cases h12 : SB.cmp b.c2 a.c2 <;>
+    cases h21 : SB.cmp a.c1 b.c1 <;> cases h22 : SB.cmp b.c1 a.c1 <;>
+    simp_all [Ordering.then]
+
+section curves
+variable {P F : Type} [Field F] [DecidableEq F]
+variable {B : FieldD P F} {S : SqrtD F}
+
+/-- the right-hand side assembled by `get_ys_from_x_unchecked` (with the `a = 0` / `b = 0`
+    short-cuts of `mul_by_a` / `add_b`) is `x³ + a·x + b` -/
+theorem sw_rhs_eq (hB : BaseLawful B) (a b x : F) :
+    (if a ≠ 0 then swAddB b (B.square x * x) + swMulByA a x else swAddB b (B.square x * x))
+      = x ^ 3 + a * x + b := by
+  unfold swAddB swMulByA
+  rw [hB.square]
+  by_cases ha : a = 0 <;> by_cases hb : b = 0 <;> simp [ha, hb] <;> ring
+
+
+theorem lt_iff (S : SqrtD F) (a b : F) : S.lt a b = true ↔ S.cmp a b = .lt := by
+  unfold SqrtD.lt
+  cases S.cmp a b <;> decide
+
+theorem le_iff (S : SqrtD F) (a b : F) : S.le a b = true ↔ S.cmp a b ≠ .gt := by
+  unfold SqrtD.le
+  cases S.cmp a b <;> decide
+
+theorem sq_eq_cases {y y1 r : F} (h : y * y = r) (h1 : y1 * y1 = r) : y = y1 ∨ y = -y1 := by
+  have : (y - y1) * (y + y1) = 0 := by ring_nf; rw [← pow_two] at *; linear_combination h - h1
+  rcases mul_eq_zero.mp this with h | h
+  · left; linear_combination h
+  · right; linear_combination h
+
+variable (hB : BaseLawful B) (hS : ∀ x, SqrtSpec (S.sqrt x) x) (hcmp : CmpOriented S)
+include hB hS
+
+theorem getYsFromX_none_iff (a b x : F) :
+    getYsFromX B S a b x = .ok none ↔ ¬ IsSquare (x ^ 3 + a * x + b) := by
+  unfold getYsFromX
+  simp only [sw_rhs_eq hB]
+  obtain ⟨o, ho, hn, hsome⟩ := hS (x ^ 3 + a * x + b)
+  rw [ho, bind_ok]
+  cases o with
+  | none => simp [hn.mp rfl]
+  | some y =>
+    have : IsSquare (x ^ 3 + a * x + b) := ⟨y, (hsome y rfl).symm⟩
+    dsimp only
+    split <;> simp [this]
+
+theorem getYsFromX_total (a b x : F) : ∃ r, getYsFromX B S a b x = .ok r := by
+  unfold getYsFromX
+  simp only [sw_rhs_eq hB]
+  obtain ⟨o, ho, hn, hsome⟩ := hS (x ^ 3 + a * x + b)
+  rw [ho, bind_ok]
+  cases o with
+  | none => exact ⟨_, rfl⟩
+  | some y =>
+    dsimp only
+    split <;> exact ⟨_, rfl⟩
+
+include hcmp in
+theorem getYsFromX_some (a b x y1 y2 : F) (h : getYsFromX B S a b x = .ok (some (y1, y2))) :
+    y1 * y1 = x ^ 3 + a * x + b ∧ y2 = -y1 ∧ S.cmp y1 y2 ≠ .gt ∧
+      ∀ y, y * y = x ^ 3 + a * x + b → y = y1 ∨ y = y2 := by
+  unfold getYsFromX at h
+  simp only [sw_rhs_eq hB] at h
+  obtain ⟨o, ho, hn, hsome⟩ := hS (x ^ 3 + a * x + b)
+  rw [ho, bind_ok] at h
+  cases o with
+  | none => cases h
+  | some y =>
+    have hy := hsome y rfl
+    dsimp only at h
+    split at h
+    · rename_i hlt
+      simp only [Res.ok.injEq, Option.some.injEq, Prod.mk.injEq] at h
+      obtain ⟨rfl, rfl⟩ := h
+      refine ⟨hy, rfl, ?_, fun y' hy' => sq_eq_cases hy' hy⟩
+      rw [(lt_iff S _ _).mp hlt]; decide
+    · rename_i hlt
+      simp only [Res.ok.injEq, Option.some.injEq, Prod.mk.injEq] at h
+      obtain ⟨rfl, rfl⟩ := h
+      have hy' : -y * -y = x ^ 3 + a * x + b := by rw [neg_mul_neg]; exact hy
+      refine ⟨hy', (neg_neg y).symm, ?_, fun y' hy'' => ?_⟩
+      · intro hgt
+        exact hlt ((lt_iff S _ _).mpr ((hcmp _ _).mp hgt))
+      · rcases sq_eq_cases hy'' hy with h | h
+        · right; exact h
+        · left; exact h
+
+theorem getPointFromX_eq (a b x : F) (greatest : Bool) :
+    (getYsFromX B S a b x = .ok none → getPointFromX B S a b x greatest = .ok none) ∧
+    (∀ y1 y2, getYsFromX B S a b x = .ok (some (y1, y2)) →
+      getPointFromX B S a b x greatest = .ok (some (x, if greatest then y2 else y1))) := by
+  unfold getPointFromX
+  constructor
+  · intro h; rw [h]; rfl
+  · intro y1 y2 h
+    rw [h, bind_ok]
+    cases greatest <;> rfl
+
+theorem getXsFromY_none_iff (a d y : F) :
+    getXsFromY B S a d y = .ok none ↔
+      a - d * y ^ 2 = 0 ∨ ¬ IsSquare ((1 - y ^ 2) / (a - d * y ^ 2)) := by
+  unfold getXsFromY
+  simp only [hB.square, hB.inverse, ofOutcome_ok, bind_ok]
+  have e : a - y * y * d = a - d * y ^ 2 := by ring
+  rw [e]
+  by_cases hden : a - d * y ^ 2 = 0
+  · simp [hden]
+  · rw [if_neg hden]
+    dsimp only
+    have e2 : (a - d * y ^ 2)⁻¹ * (1 - y * y) = (1 - y ^ 2) / (a - d * y ^ 2) := by
+      rw [div_eq_mul_inv]; ring
+    rw [e2]
+    obtain ⟨o, ho, hn, hsome⟩ := hS ((1 - y ^ 2) / (a - d * y ^ 2))
+    rw [ho, bind_ok]
+    cases o with
+    | none => simp [hn.mp rfl]
+    | some x =>
+      have : IsSquare ((1 - y ^ 2) / (a - d * y ^ 2)) := ⟨x, (hsome x rfl).symm⟩
+      dsimp only
+      split <;> simp [this, hden]
+
+theorem getXsFromY_total (a d y : F) : ∃ r, getXsFromY B S a d y = .ok r := by
+  unfold getXsFromY
+  simp only [hB.square, hB.inverse, ofOutcome_ok, bind_ok]
+  split
+  · exact ⟨_, rfl⟩
+  · rename_i x0 _
+    obtain ⟨o, ho, hn, hsome⟩ := hS (x0 * (1 - y * y))
+    rw [ho, bind_ok]
+    cases o with
+    | none => exact ⟨_, rfl⟩
+    | some x =>
+      dsimp only
+      split <;> exact ⟨_, rfl⟩
+
+include hcmp in
+/-- both results lie on the curve `a·x² + y² = 1 + d·x²·y²`, are opposite, ordered, and exhaust the
+    solutions -/
+theorem getXsFromY_some (a d y x1 x2 : F) (h : getXsFromY B S a d y = .ok (some (x1, x2))) :
+    a - d * y ^ 2 ≠ 0 ∧ x1 * x1 = (1 - y ^ 2) / (a - d * y ^ 2) ∧
+      a * x1 ^ 2 + y ^ 2 = 1 + d * x1 ^ 2 * y ^ 2 ∧ x2 = -x1 ∧ S.cmp x1 x2 ≠ .gt ∧
+      ∀ x, a * x ^ 2 + y ^ 2 = 1 + d * x ^ 2 * y ^ 2 → x = x1 ∨ x = x2 := by
+  unfold getXsFromY at h
+  simp only [hB.square, hB.inverse, ofOutcome_ok, bind_ok] at h
+  have e : a - y * y * d = a - d * y ^ 2 := by ring
+  rw [e] at h
+  by_cases hden : a - d * y ^ 2 = 0
+  · rw [if_pos hden] at h; cases h
+  · rw [if_neg hden] at h
+    dsimp only at h
+    have e2 : (a - d * y ^ 2)⁻¹ * (1 - y * y) = (1 - y ^ 2) / (a - d * y ^ 2) := by
+      rw [div_eq_mul_inv]; ring
+    rw [e2] at h
+    obtain ⟨o, ho, hn, hsome⟩ := hS ((1 - y ^ 2) / (a - d * y ^ 2))
+    rw [ho, bind_ok] at h
+    have curve_of : ∀ x, x * x = (1 - y ^ 2) / (a - d * y ^ 2) →
+        a * x ^ 2 + y ^ 2 = 1 + d * x ^ 2 * y ^ 2 := by
+      intro x hx
+      have : x * x * (a - d * y ^ 2) = 1 - y ^ 2 := by rw [hx, div_mul_cancel₀ _ hden]
+      linear_combination this
+    have of_curve : ∀ x, a * x ^ 2 + y ^ 2 = 1 + d * x ^ 2 * y ^ 2 →
+        x * x = (1 - y ^ 2) / (a - d * y ^ 2) := by
+      intro x hx
+      rw [eq_div_iff hden]
+      linear_combination hx
+    cases o with
+    | none => cases h
+    | some x =>
+      have hx := hsome x rfl
+      dsimp only at h
+      split at h
+      · rename_i hle
+        simp only [Res.ok.injEq, Option.some.injEq, Prod.mk.injEq] at h
+        obtain ⟨rfl, rfl⟩ := h
+        exact ⟨hden, hx, curve_of _ hx, rfl, (le_iff S _ _).mp hle,
+          fun x' hx' => sq_eq_cases (of_curve _ hx') hx⟩
+      · rename_i hle
+        simp only [Res.ok.injEq, Option.some.injEq, Prod.mk.injEq] at h
+        obtain ⟨rfl, rfl⟩ := h
+        have hx' : -x * -x = (1 - y ^ 2) / (a - d * y ^ 2) := by rw [neg_mul_neg]; exact hx
+        refine ⟨hden, hx', curve_of _ hx', (neg_neg x).symm, ?_, fun x'' hx'' => ?_⟩
+        · have hgt : S.cmp x (-x) = .gt := by
+            by_contra hne
+            exact hle ((le_iff S _ _).mpr hne)
+          rw [(hcmp _ _).mp hgt]; decide
+        · rcases sq_eq_cases (of_curve _ hx'') hx with h | h
+          · right; exact h
+          · left; exact h
+
+theorem getPointFromY_eq (a d y : F) (greatest : Bool) :
+    (getXsFromY B S a d y = .ok none → getPointFromY B S a d y greatest = .ok none) ∧
+    (∀ x1 x2, getXsFromY B S a d y = .ok (some (x1, x2)) →
+      getPointFromY B S a d y greatest = .ok (some (if greatest then x2 else x1, y))) := by
+  unfold getPointFromY
+  constructor
+  · intro h; rw [h]; rfl
+  · intro x1 x2 h
+    rw [h, bind_ok]
+    cases greatest <;> rfl
+
+end curves
+
+/-- the order of the prime field (integers `< p`) is oriented -/
+theorem zmod_cmp_oriented (dbg : Bool) (p : Nat) [Fact p.Prime] (pre : Option (Precomp (ZMod p))) :
+    CmpOriented (zmodSqrtD dbg p pre) := by
+  intro a b
+  show compare a.val b.val = .gt ↔ compare b.val a.val = .lt
+  rw [Nat.compare_eq_gt, Nat.compare_eq_lt]
+
+/-! ## 13. the constant `1/2` of the complex method, and the executable prime field -/
+
+/-- `fpPrimeD` over `ZMod p` (same bodies) -/
+def zmodPrimeD (p n : Nat) : PrimeD (ZMod p) :=
+  { modulus := p, limbs := n, fromBigint := fun x => if x < p then some (x : ZMod p) else none }
+
+theorem twoInv_zmod (p : Nat) [Fact p.Prime] (hp : p ≠ 2) (n : Nat) (hlt : p + 1 < 2 ^ (64 * n)) :
+    twoInv (primeD (ZMod p)) (zmodPrimeD p n) = .ok (2⁻¹ : ZMod p) := by
+  have hodd : p % 2 = 1 := ((Fact.out : p.Prime).eq_two_or_odd).resolve_left hp
+  have hp3 : 3 ≤ p := by
+    have := (Fact.out : p.Prime).two_le
+    omega
+  unfold twoInv
+  show (Res.expect (if (p + 1) % 2 ^ (64 * n) / 2 < p then
+      some (((p + 1) % 2 ^ (64 * n) / 2 : ℕ) : ZMod p) else none)).bind _ = _
+  rw [Nat.mod_eq_of_lt hlt, if_pos (by omega), expect_some, bind_ok]
+  show Res.ok (((p + 1) / 2 : ℕ) : ZMod p) = _
+  congr 1
+  apply eq_inv_of_mul_eq_one_left
+  have h2 : (p + 1) / 2 * 2 = p + 1 := by omega
+  have : ((((p + 1) / 2 * 2 : ℕ)) : ZMod p) = ((p + 1 : ℕ) : ZMod p) := by rw [h2]
+  push_cast at this
+  rw [this]
+  simp
+
+section twoinvtower
+variable {P F : Type} [Field F] [DecidableEq F]
+
+/-- the constant is inherited by the quadratic layer … -/
+theorem twoInv_quad {cfg : QuadCfg F} {B : FieldD P F} (hB : BaseLawful B) (hc : QuadLawful cfg)
+    (hnr : ∀ x : F, x * x ≠ cfg.nonresidue) (PD : PrimeD P) (h2 : (2 : F) ≠ 0)
+    (h : twoInv B PD = .ok (2⁻¹ : F)) :
+    letI := Quad.field cfg B hB hc hnr
+    twoInv (Quad.fieldD cfg B) PD = .ok (2⁻¹ : Quad F) := by
+  letI := Quad.field cfg B hB hc hnr
+  unfold twoInv at h ⊢
+  dsimp only at h ⊢
+  cases hfb : PD.fromBigint ((PD.modulus + 1) % 2 ^ (64 * PD.limbs) / 2) with
+  | none => rw [hfb] at h; cases h
+  | some e =>
+    rw [hfb] at h
+    rw [expect_some, bind_ok] at h ⊢
+    have he : B.ofPrime e = 2⁻¹ := Res.ok.inj h
+    show Res.ok (⟨B.ofPrime e, 0⟩ : Quad F) = _
+    congr 1
+    apply eq_inv_of_mul_eq_one_left
+    rw [← one_add_one_eq_two]
+    show Quad.mul cfg B ⟨B.ofPrime e, 0⟩ (1 + 1) = 1
+    rw [Quad.mul_eq hB hc, he]
+    apply Quad.ext'
+    · simp only [Quad.add_c0, Quad.add_c1, Quad.one_c0, Quad.one_c1]
+      field_simp
+      norm_num
+    · simp
+
+/-- … and by the cubic layer -/
+theorem twoInv_cubic {cfg : CubicCfg F} {B : FieldD P F} (hc : CubicLawful cfg)
+    (hnc : ∀ x : F, x ^ 3 ≠ cfg.nonresidue) (PD : PrimeD P) (h2 : (2 : F) ≠ 0)
+    (h : twoInv B PD = .ok (2⁻¹ : F)) :
+    letI := Cubic.field cfg hc hnc
+    twoInv (Cubic.fieldD cfg B) PD = .ok (2⁻¹ : Cubic F) := by
+  letI := Cubic.field cfg hc hnc
+  unfold twoInv at h ⊢
+  dsimp only at h ⊢
+  cases hfb : PD.fromBigint ((PD.modulus + 1) % 2 ^ (64 * PD.limbs) / 2) with
+  | none => rw [hfb] at h; cases h
+  | some e =>
+    rw [hfb] at h
+    rw [expect_some, bind_ok] at h ⊢
+    have he : B.ofPrime e = 2⁻¹ := Res.ok.inj h
+    show Res.ok (⟨B.ofPrime e, 0, 0⟩ : Cubic F) = _
+    congr 1
+    apply eq_inv_of_mul_eq_one_left
+    rw [← one_add_one_eq_two]
+    show Cubic.mul cfg ⟨B.ofPrime e, 0, 0⟩ (1 + 1) = 1
+    rw [Cubic.mul_eq hc, he]
+    apply Cubic.ext'
+    · simp only [Cubic.add_c0, Cubic.add_c1, Cubic.add_c2, Cubic.one_c0, Cubic.one_c1, Cubic.one_c2]
+      field_simp
+      norm_num
+    · simp
+    · simp
+
+end twoinvtower
+
+section fpcorrect
+variable (p : ℕ) [Fact p.Prime]
+
+/-- **`fpSqrtD_correct`** on the executable prime field `Fp p`: with the constants produced by
+    `sqrt_precomputation`, `sqrt` of a canonical representative never panics, returns `None` exactly on
+    non-residues and otherwise a canonical representative of a root -/
+theorem fpSqrtD_correct (dbg : Bool) (hp : p ≠ 2) (n : Nat) (hlt : p < 2 ^ (64 * n))
+    (g : ZMod p) (hg : ¬ IsSquare g) (x : ZMod p) :
+    ∃ r, (fpSqrtD dbg p (sqrtPrecomputation n p (ofZ p (g ^ (twoAdic p).2)))).sqrt (ofZ p x) = .ok r ∧
+      (r = none ↔ ¬ IsSquare x) ∧
+      ∀ y, r = some y → y * y = ofZ p x ∧ ∃ y', y = ofZ p y' ∧ y' * y' = x := by
+  obtain ⟨o, ho, hn, hsome⟩ := (zmodSqrtD_lawful p dbg hp n hlt g hg).sqrt x
+  refine ⟨o.map (ofZ p), ?_, ?_, ?_⟩
+  · rw [sqrtPrecomputation_map, fpSqrtD_sqrt_ofZ, ho]; rfl
+  · rw [← hn]; cases o <;> simp
+  · intro y hy
+    cases o with
+    | none => cases hy
+    | some y' =>
+      simp only [Option.map, Option.some.injEq] at hy
+      subst hy
+      have := hsome y' rfl
+      exact ⟨by rw [← (ofZ_emb p).mul, this], y', rfl, this⟩
+
+/-- `Fp::legendre` on the executable prime field is the Legendre symbol -/
+theorem fpSqrtD_legendre_correct (dbg : Bool) (hp : p ≠ 2) (pre : Option (Precomp (Fp p)))
+    (a : ℤ) :
+    ∃ l, (fpSqrtD dbg p pre).legendre (ofZ p (a : ZMod p)) = .ok l ∧ LegSpec l (a : ZMod p) ∧
+      l.toInt = legendreSym p a :=
+  ⟨_, fpSqrtD_legendre_ofZ p dbg pre _, legendreEuler_zmod_legSpec p hp _ (fun _ => rfl) _,
+    legendreEuler_zmod_legendreSym p hp _ (fun _ => rfl) a⟩
+
+end fpcorrect
+
+/-! ## 14. `Fp3` over the prime field: unconditional -/
+
+section fp3
+variable {F : Type} [Field F] [Fintype F] [DecidableEq F]
+
+theorem fp3SqrtD_lawful (p : ℕ) [Fact p.Prime] [CharP F p] (hp3 : p % 3 = 1)
+    (hcard : Fintype.card F = p) (c : Fp3Cfg F) (hc : CubicLawful c.wrap)
+    (hnc : ∀ x : F, x ^ 3 ≠ c.wrap.nonresidue)
+    (hlen1 : c.frobC1.length = 3) (hlen2 : c.frobC2.length = 3)
+    (htbl1 : ∀ i, i < 3 → c.frobC1.getD i 0 = c.nonresidue ^ ((p ^ i - 1) / 3))
+    (htbl2 : ∀ i, i < 3 → c.frobC2.getD i 0 = c.nonresidue ^ ((2 * p ^ i - 2) / 3))
+    {SB : SqrtD F} (hS : SqrtLawful SB) (hF : ringChar F ≠ 2) (dbg : Bool)
+    (pre : Precomp (Cubic F))
+    (hpre : letI := Cubic.field c.wrap hc hnc
+      ValidPre pre) :
+    letI := Cubic.field c.wrap hc hnc
+    SqrtLawful (cubicSqrtD dbg c.wrap (primeD F) SB (some pre)) := by
+  letI := Cubic.commRing c.wrap hc
+  refine cubicSqrtD_lawful primeD_lawful hc hnc hS hF dbg pre hpre ?_ ?_
+  · intro a
+    have := Fp3.frob_eq_pow p hp3 hcard c hc hnc hlen1 hlen2 htbl1 htbl2 a 1
+    rw [pow_one] at this
+    rw [hcard]; exact this
+  · intro a
+    have := Fp3.frob_eq_pow p hp3 hcard c hc hnc hlen1 hlen2 htbl1 htbl2 a 2
+    rw [hcard]; exact this
+
+end fp3
+
+/-! ## 14b. two quadratic layers: `Fp4 = Fp2[Y]/(Y² - X)` -/
+
+section fp4
+variable {P F : Type} [Field F] [Fintype F] [DecidableEq F]
+
+theorem fp4SqrtD_lawful (c2 : Fp2Cfg F) {B : FieldD P F} (hB : BaseLawful B)
+    (hc : QuadLawful c2.wrap) (hnr : ∀ x : F, x * x ≠ c2.wrap.nonresidue) (tbl : List F)
+    (hnr4 : letI := Quad.field c2.wrap B hB hc hnr
+      ∀ x : Quad F, x * x ≠ ⟨0, 1⟩)
+    {SB : SqrtD F} (hS : SqrtLawful SB) (dbg : Bool) (PD : PrimeD P)
+    (hti : twoInv B PD = .ok (2⁻¹ : F)) :
+    letI := Quad.field c2.wrap B hB hc hnr
+    letI := Quad.field (Fp4.cfg c2 ⟨0, 1⟩ tbl) (Quad.fieldD c2.wrap B)
+      (Quad.fieldD_baseLawful hB hc hnr) (Fp4.cfg_lawful c2 hB hc hnr tbl) hnr4
+    SqrtLawful (quadSqrtD dbg (Fp4.cfg c2 ⟨0, 1⟩ tbl) (Quad.fieldD c2.wrap B)
+      (quadSqrtD dbg c2.wrap B SB PD) PD) := by
+  letI := Quad.field c2.wrap B hB hc hnr
+  have h2 : (2 : F) ≠ 0 :=
+    Ring.two_ne_zero (char_ne_two_of_nonsquare (nonresidue_not_isSquare hnr))
+  have h1 := quadSqrtD_lawful hB hc hnr hS dbg PD hti
+  have hti2 := twoInv_quad hB hc hnr PD h2 hti
+  exact quadSqrtD_lawful (Quad.fieldD_baseLawful hB hc hnr) (Fp4.cfg_lawful c2 hB hc hnr tbl) hnr4
+    h1 dbg PD hti2
+
+end fp4
+
+/-! ## 15. concrete instances for the non-vacuity examples -/
+
+section concrete
+
+/-- `F₁₃`: `12 = 2²·3`, `2` is a non-residue, `z = 2³ = 8` -/
+theorem valid13 : ValidTS (F := ZMod 13) 2 8 1 :=
+  ⟨by rw [ZMod.card]; norm_num, by norm_num, by decide⟩
+
+/-- `F₁₇`: `16 = 2⁴·1`, `3` is a non-residue, `z = 3` -/
+theorem valid17 : ValidTS (F := ZMod 17) 4 3 0 :=
+  ⟨by rw [ZMod.card]; norm_num, by norm_num, by decide⟩
+
+/-- `F₅`: `4 = 2²·1`, `2` is a non-residue, `z = 2` -/
+theorem valid5 : ValidTS (F := ZMod 5) 2 2 0 :=
+  ⟨by rw [ZMod.card]; norm_num, by norm_num, by decide⟩
+
+def S5 : SqrtD (ZMod 5) := zmodSqrtD false 5 (some (.tonelliShanks 2 2 0))
+theorem S5_lawful : SqrtLawful S5 :=
+  zmodSqrtD_lawful_of_valid 5 false (by norm_num) _ valid5
+theorem twoInv5 : twoInv (primeD (ZMod 5)) (zmodPrimeD 5 1) = .ok (2⁻¹ : ZMod 5) :=
+  twoInv_zmod 5 (by norm_num) 1 (by norm_num)
+
+def S13 : SqrtD (ZMod 13) := zmodSqrtD false 13 (some (.tonelliShanks 2 8 1))
+def S17 : SqrtD (ZMod 17) := zmodSqrtD false 17 (some (.tonelliShanks 4 3 0))
+def S7 : SqrtD (ZMod 7) := zmodSqrtD false 7 (some (.case3Mod4 2))
+
+theorem S13_lawful : SqrtLawful S13 :=
+  zmodSqrtD_lawful_of_valid 13 false (by norm_num) _ valid13
+theorem S17_lawful : SqrtLawful S17 :=
+  zmodSqrtD_lawful_of_valid 17 false (by norm_num) _ valid17
+theorem S7_lawful : SqrtLawful S7 :=
+  zmodSqrtD_lawful_of_valid 7 false (by norm_num) _ ⟨by rw [ZMod.card], by rw [ZMod.card]⟩
+
+def B13 : FieldD (ZMod 13) (ZMod 13) := primeD (ZMod 13)
+theorem B13_lawful : BaseLawful B13 := primeD_lawful
+
+/-- `F₁₃[X]/(X² - 2)` -/
+def c13two : Fp2Cfg (ZMod 13) := Fp2Cfg.default 2 [1, 12]
+theorem c13two_lawful : QuadLawful c13two.wrap := Fp2Cfg.default_wrap_lawful _ _
+theorem nonsq13 : ∀ x : ZMod 13, x * x ≠ c13two.wrap.nonresidue := by decide
+
+/-- `F₁₃[X]/(X³ - 2)` with its Frobenius tables -/
+def c13cub : Fp3Cfg (ZMod 13) := Fp3Cfg.default 2 [1, 3, 9] [1, 9, 3]
+theorem c13cub_lawful : CubicLawful c13cub.wrap := Fp3Cfg.default_wrap_lawful _ _ _
+theorem noncube13 : ∀ x : ZMod 13, x ^ 3 ≠ c13cub.wrap.nonresidue := by decide
+
+theorem twoInv13 : twoInv B13 (zmodPrimeD 13 1) = .ok (2⁻¹ : ZMod 13) :=
+  twoInv_zmod 13 (by norm_num) 1 (by norm_num)
+
+theorem twoInv7 : twoInv B7 (zmodPrimeD 7 1) = .ok (2⁻¹ : ZMod 7) :=
+  twoInv_zmod 7 (by norm_num) 1 (by norm_num)
+
+/-- `F_{13³}`: `13³ - 1 = 2²·549`, `549 = 2·274 + 1`, `5² = -1` -/
+theorem valid13cub :
+    letI := Cubic.field c13cub.wrap c13cub_lawful noncube13
+    ValidTS (F := Cubic (ZMod 13)) 2 ⟨5, 0, 0⟩ 274 := by
+  letI := Cubic.field c13cub.wrap c13cub_lawful noncube13
+  refine ⟨by rw [Cubic.card, ZMod.card]; norm_num, by norm_num, ?_⟩
+  decide +kernel
+
+theorem c13cub_tables :
+    c13cub.frobC1.length = 3 ∧ c13cub.frobC2.length = 3 ∧
+    (∀ i, i < 3 → c13cub.frobC1.getD i 0 = c13cub.nonresidue ^ ((13 ^ i - 1) / 3)) ∧
+    (∀ i, i < 3 → c13cub.frobC2.getD i 0 = c13cub.nonresidue ^ ((2 * 13 ^ i - 2) / 3)) := by
+  refine ⟨rfl, rfl, fun i hi => ?_, fun i hi => ?_⟩ <;> interval_cases i <;> decide +kernel
+
+end concrete
 
 end Ark.SqrtP
